@@ -415,6 +415,9 @@ impl<Signature: ByteArray<CRYPTO_SIGN_BYTES> + Zeroize, Message: Bytes + Zeroize
         &self,
         public_key: &PublicKey,
     ) -> Result<(), Error> {
+        if self.signature.len() != CRYPTO_SIGN_BYTES || public_key.len() != CRYPTO_SIGN_PUBLICKEYBYTES {
+            return Err(dryoc_error!("signature or public key has the wrong length"));
+        }
         crypto_sign_verify_detached(
             self.signature.as_array(),
             self.message.as_slice(),
